@@ -5,7 +5,7 @@ set_option linter.unusedVariables false
 namespace AwsVerif.Proofs.C08
 open AwsVerif.ThreadSched
 
-variable {progs : List (List Op)} {s s' : Sys}
+variable {progs : List (List Op)} {cbs : Cbs} {s s' : Sys}
 
 theorem inv_step (h : Inv progs s) (a : Act) (hs : step Cfg.fixed s a = some s') : Inv progs s' := by
   cases a with
@@ -20,23 +20,33 @@ theorem sum_held_init (progs : List (List Op)) :
   | nil => rfl
   | cons p ps ih => simp only [List.map_cons, List.sum_cons, List.length_cons, ih]; omega
 
-theorem init_client {progs : List (List Op)} {j : Nat} {c : Client} (h : (init progs).clients[j]? = some c) :
-    ∃ p ∈ progs, c = { prog := p, pc := .idle, held := 1 } := by
+theorem init_client {progs : List (List Op)} {cbs : Cbs} {j : Nat} {c : Client}
+    (h : (init progs cbs).clients[j]? = some c) : ∃ p ∈ progs, c = { prog := p, pc := .idle, held := 1 } := by
   simp only [init, List.getElem?_map, Option.map_eq_some_iff] at h
   obtain ⟨p, hp, e⟩ := h
   exact ⟨p, List.mem_of_getElem? hp, e.symm⟩
 
-theorem inv_init (hwf : WF progs) : Inv progs (init progs) := by
-  refine ⟨⟨?_, ?_, ?_, ?_, ?_, ?_⟩, ⟨?_, ?_, ?_, ?_, ?_⟩, ⟨?_, ?_, ?_, ?_, ?_, ?_, ?_, ?_⟩, ⟨?_⟩⟩
-  · exact List.nodup_iff_count.mp hwf.2
+theorem clientPend_init (progs : List (List Op)) (cbs : Cbs) : clientPend (init progs cbs) = allTasks progs := by
+  simp [clientPend, init, allTasks, List.flatMap_map, pend, Function.comp_def]
+
+theorem inv_init (hwf : WF progs cbs) : Inv progs (init progs cbs) := by
+  have hnd := List.nodup_iff_count.mp hwf.2
+  refine ⟨⟨?_, ?_, ?_, ?_, ?_⟩, ⟨?_, ?_⟩, ⟨?_, ?_, ?_, ?_, ?_⟩, ⟨?_, ?_, ?_, ?_, ?_, ?_, ?_, ?_, ?_, ?_, ?_⟩, ⟨?_⟩⟩
   · intro t; simp [places, handOver, recs, remTasks, innerTasks, logTasks, init, Inner.empty, SThread.init]
-  · intro t
-    simp [pendAll, init, allTasks, List.flatMap_map, pend, Function.comp_def]
   · intro t; simp [init, Inner.empty, innerTasks]
   · intro t ht; simp [init, Inner.empty] at ht
   · intro e he; simp [init] at he
+  · intro _ t ht; simp [init, Inner.empty] at ht
+  · intro t
+    have := hnd t
+    have e1 : (pendAll (init progs cbs)).count t = (allTasks progs ++ cbTargets cbs).count t := by
+      simp only [pendAll, clientPend_init, List.count_append]
+      simp [init, SThread.init, pcPendS, logTasks, cbPend_nil]
+    have e2 : (init progs cbs).scheduled = [] := rfl
+    rw [e1, e2]; simpa [allTasks] using this
+  · intro t; rw [clientPend_init]; simp [init]
   · simp [init, SThread.init]
-  · simp [cpyOk, init, SThread.init]
+  · simp [cpyOk, init, SThread.init, cancelsPhase]
   · simp [init, SThread.init, schedCS]
   · intro j c hj
     obtain ⟨p, _, e⟩ := init_client hj
@@ -54,6 +64,9 @@ theorem inv_init (hwf : WF progs) : Inv progs (init progs) := by
   · intro j c hd; simp [init] at hd
   · intro hr; simp [init] at hr
   · simp [init, SThread.init]
+  · intro _ _; simp [init, Inner.empty]
+  · intro hr; simp [init] at hr
+  · intro hr; simp [init] at hr
   · intro id; simp [recs, init, SThread.init]
 
 theorem inv_run_from (h : Inv progs s) (acts : List Act) : Inv progs (run Cfg.fixed s acts) := by
@@ -65,20 +78,20 @@ theorem inv_run_from (h : Inv progs s) (acts : List Act) : Inv progs (run Cfg.fi
     | none => simp only [Option.getD_none]; exact ih h
     | some s' => simp only [Option.getD_some]; exact ih (inv_step h a hs)
 
-theorem inv_run (hwf : WF progs) (acts : List Act) : Inv progs (run Cfg.fixed (init progs) acts) :=
+theorem inv_run (hwf : WF progs cbs) (acts : List Act) : Inv progs (run Cfg.fixed (init progs cbs) acts) :=
   inv_run_from (inv_init hwf) acts
 
 theorem done_iff (c : Client) : c.done = true ↔ c.pc = .idle ∧ c.prog = [] := by
   simp [Client.done, List.isEmpty_iff]
 
 theorem at_most_once_of_inv (h : Inv progs s) (t : Task) : (logTasks s).count t ≤ 1 := by
-  have := h.t.cntPlaces t; have := h.t.sched_le t
+  have := h.t.cntPlaces t; have := h.p.sched_le t
   simp only [places, List.count_append] at *; omega
 
 theorem one_place_of_inv (h : Inv progs s) (t : Task) :
     (handOver s).count t + (remTasks (recs s)).count t + (innerTasks s).count t + (logTasks s).count t
       = if t ∈ s.scheduled then 1 else 0 := by
-  have h1 := h.t.cntPlaces t; have h2 := h.t.sched_le t
+  have h1 := h.t.cntPlaces t; have h2 := h.p.sched_le t
   simp only [places, List.count_append] at h1
   by_cases hm : t ∈ s.scheduled
   · have := List.count_pos_iff.mpr hm; simp only [hm, if_true]; omega
@@ -93,12 +106,12 @@ theorem others_done (h : Inv progs s) {i j : Nat} {cj : Client} (hd : s.destroye
   have hheld : cj.held = 0 := sum_map_eq_zero (·.held) hs.symm hj
   have hw := h.r.cwf j cj hj
   have hin := h.r.dIn j cj hj
-  cases hpc : cj.pc <;> simp only [cwfOk, hpc] at hw <;>
-    first
-      | (rw [hheld] at hw; exact ⟨rfl, wfProg_zero hw⟩)
-      | omega
-      | (exfalso; have := hin (by simp [hpc, inDestroy]); rw [hd] at this
-         simp only [Option.some.injEq, Nat.add_right_cancel_iff] at this; exact hne this.symm)
+  by_cases hdes : inDestroy cj.pc = true
+  · exfalso; have := hin hdes; rw [hd] at this
+    simp only [Option.some.injEq, Nat.add_right_cancel_iff] at this; exact hne this.symm
+  · cases hpc : cj.pc <;> simp [hpc, inDestroy] at hdes <;> simp only [cwfOk, hpc] at hw
+    · rw [hheld] at hw; exact ⟨rfl, wfProg_zero hw⟩
+    all_goals omega
 
 theorem stepClient_done (cfg : Cfg) {j : Nat} {cj : Client} (hj : s.clients[j]? = some cj)
     (hd : cj.pc = .idle ∧ cj.prog = []) : stepClient cfg s j = none := by
@@ -107,7 +120,7 @@ theorem stepClient_done (cfg : Cfg) {j : Nat} {cj : Client} (hj : s.clients[j]? 
 /-- the state once the final release has returned -/
 theorem released_facts (h : Inv progs s) (hr : s.released = true) :
     ∃ i c, s.destroyer = some (i + 1) ∧ s.clients[i]? = some c ∧ c.pc = .idle ∧ c.prog = [] ∧
-      s.st.pc = .exited ∧ qEmpty s ∧ iEmpty s ∧ s.st.listCpy = [] ∧ s.st.cancelCpy = [] := by
+      s.st.pc = .exited ∧ iEmpty s ∧ (s.misuse = false → qEmpty s) ∧ s.st.listCpy = [] ∧ s.st.cancelCpy = [] := by
   have hdn := h.r.relD hr
   cases hd : s.destroyer with
   | none => exact absurd hd hdn
@@ -117,22 +130,39 @@ theorem released_facts (h : Inv progs s) (hr : s.released = true) :
     have hil : i < s.clients.length := by omega
     have hci : s.clients[i]? = some s.clients[i] := List.getElem?_eq_getElem hil
     have hph := h.r.dPhase i _ hd hci
-    have hidle : s.clients[i].pc = .idle ∧ s.st.pc = .exited ∧ qEmpty s ∧ iEmpty s := by
-      cases hpc : s.clients[i].pc <;> simp only [hpc, phaseOk] at hph <;>
-        first
-          | exact ⟨rfl, hph.2⟩
-          | (exfalso; rw [hr] at hph; simp at hph)
-          | (exfalso; exact hph)
+    have hidle : s.clients[i].pc = .idle := by
+      cases he : earlyPhase s.clients[i].pc with
+      | true => rw [phaseOk_early he] at hph; rw [hr] at hph; simp at hph
+      | false =>
+        cases hpc : s.clients[i].pc with
+        | idle => rfl
+        | dStore => simp [hpc, earlyPhase] at he
+        | dNotify => simp [hpc, earlyPhase] at he
+        | dJoin => simp [hpc, earlyPhase] at he
+        | dDrainQ => rw [hpc] at hph; have := hph.1.1; rw [hr] at this; cases this
+        | dDrainC => rw [hpc] at hph; have := hph.1.1; rw [hr] at this; cases this
+        | dCleanUp => rw [hpc] at hph; have := hph.1.1; rw [hr] at this; cases this
+        | dSweep => rw [hpc] at hph; have := hph.1.1; rw [hr] at this; cases this
+        | dFree => rw [hpc] at hph; have := hph.1.1; rw [hr] at this; cases this
+        | dcbLock op ret => rw [hpc] at hph; cases ret <;> (have := hph.1.1; rw [hr] at this; cases this)
+        | dcbBody op ret => rw [hpc] at hph; cases ret <;> (have := hph.1.1; rw [hr] at this; cases this)
+        | dcbUnlock ret => rw [hpc] at hph; cases ret <;> (have := hph.1.1; rw [hr] at this; cases this)
+        | dcbNotify ret => rw [hpc] at hph; cases ret <;> (have := hph.1.1; rw [hr] at this; cases this)
+        | sBody t τ => rw [hpc] at hph; exact absurd hph (by simp [phaseOk])
+        | cBody t => rw [hpc] at hph; exact absurd hph (by simp [phaseOk])
+        | unlock => rw [hpc] at hph; exact absurd hph (by simp [phaseOk])
+        | notify => rw [hpc] at hph; exact absurd hph (by simp [phaseOk])
+    rw [hidle] at hph
     have hw := h.r.cwf i _ hci
-    simp only [cwfOk, hidle.1] at hw
+    simp only [cwfOk, hidle] at hw
     have h0 := h.r.dRef (by rw [hd]; simp)
     have hs := h.r.refSum
     rw [h0] at hs
     have hheld : s.clients[i].held = 0 := sum_map_eq_zero (·.held) hs.symm hci
     rw [hheld] at hw
     have hcpy := h.m.cpy
-    simp [cpyOk, hidle.2.1] at hcpy
-    exact ⟨i, _, rfl, hci, hidle.1, wfProg_zero hw, hidle.2.1, hidle.2.2.1, hidle.2.2.2, hcpy.1, hcpy.2⟩
+    simp [cpyOk, hph.2.1, cancelsPhase] at hcpy
+    exact ⟨i, _, rfl, hci, hidle, wfProg_zero hw, hph.2.1, hph.2.2.2.1, hph.2.2.2.2, hcpy.1, hcpy.2⟩
 
 /-- after the final release has returned no thread can take a step -/
 theorem quiet_of_released (h : Inv progs s) (hr : s.released = true) (a : Act) (ha : a.isThread = true) :
@@ -156,21 +186,24 @@ theorem quiet_of_released (h : Inv progs s) (hr : s.released = true) (a : Act) (
 theorem terminated_iff : terminated s = true ↔ s.released = true ∧ ∀ c ∈ s.clients, c.pc = .idle ∧ c.prog = [] := by
   simp [terminated, List.all_eq_true, done_iff]
 
-theorem pendAll_nil_of_done (hall : ∀ c ∈ s.clients, c.pc = .idle ∧ c.prog = []) : pendAll s = [] := by
-  unfold pendAll
+theorem clientPend_nil_of_done (hall : ∀ c ∈ s.clients, c.pc = .idle ∧ c.prog = []) : clientPend s = [] := by
+  unfold clientPend
   rw [List.flatMap_eq_nil_iff]
   intro c hc
   obtain ⟨h1, h2⟩ := hall c hc
   simp [pend, h1, h2, schedTasks]
 
-theorem exactly_once_of_inv (h : Inv progs s) (ht : terminated s = true) (t : Task) :
-    (logTasks s).count t = (allTasks progs).count t ∧ s.scheduled.count t = (allTasks progs).count t := by
+/-- at termination, if no task function re-entered after the last release: the log is exactly the
+scheduled tasks, and every schedule operation of every client program has been carried out -/
+theorem exactly_once_of_inv (h : Inv progs s) (ht : terminated s = true) (hm : s.misuse = false) (t : Task) :
+    (logTasks s).count t = s.scheduled.count t ∧ (allTasks progs).count t ≤ s.scheduled.count t := by
   obtain ⟨hr, hall⟩ := terminated_iff.mp ht
-  obtain ⟨i, c, hd, hci, hpc, hprog, hex, hq, hi, hl, hc⟩ := released_facts h hr
+  obtain ⟨i, c, hd, hci, hpc, hprog, hex, hi, hq, hl, hc⟩ := released_facts h hr
+  have hq := hq hm
   have h1 := h.t.cntPlaces t
-  have h2 := h.t.cntSched t
-  rw [pendAll_nil_of_done hall] at h2
-  simp only [places, handOver, recs, innerTasks, hq.1, hq.2, hi.1, hi.2, hl, hc, remTasks_nil, List.append_nil,
+  have h2 := h.p.cntProg t
+  rw [clientPend_nil_of_done hall] at h2
+  simp only [places, handOver, recs, innerTasks, hq.1, hq.2, hi.1, hi.2.1, hi.2.2, hl, hc, remTasks_nil, List.append_nil,
     List.nil_append, List.count_nil, Nat.add_zero] at h1 h2
   omega
 
@@ -179,10 +212,11 @@ theorem no_leak_of_inv (h : Inv progs s) (id : Nat) : s.freed.count id ≤ 1 := 
   simp only [List.count_append] at this
   split at this <;> omega
 
-theorem no_leak_terminated (h : Inv progs s) (ht : terminated s = true) (id : Nat) :
+theorem no_leak_terminated (h : Inv progs s) (ht : terminated s = true) (hm : s.misuse = false) (id : Nat) :
     s.freed.count id = if id < s.nextRec then 1 else 0 := by
   obtain ⟨hr, hall⟩ := terminated_iff.mp ht
-  obtain ⟨i, c, hd, hci, hpc, hprog, hex, hq, hi, hl, hc⟩ := released_facts h hr
+  obtain ⟨i, c, hd, hci, hpc, hprog, hex, hi, hq, hl, hc⟩ := released_facts h hr
+  have hq := hq hm
   have := h.k.recCount id
   simpa [recs, hq.2, hc] using this
 
@@ -192,6 +226,9 @@ theorem stepSched_enabled_free (cfg : Cfg) (hne : s.st.pc ≠ .exited) (hm : s.m
   cases hpc : s.st.pc <;> simp only [hpc, hm] <;> try rfl
   · cases s.st.listCpy <;> rfl
   · cases s.st.cancelCpy <;> rfl
+  · cases s.inner.popRunning with
+    | none => rfl
+    | some p => rfl
   · exact absurd hpc hne
 
 theorem stepSched_enabled_cs (cfg : Cfg) (hcs : schedCS s.st.pc = true) : (stepSched cfg s).isSome = true := by
@@ -213,6 +250,10 @@ theorem stepClient_enabled_free (cfg : Cfg) {j : Nat} {c : Client} (hj : s.clien
     | cons op rest => cases op <;> rfl
   · cases s.schedQ <;> rfl
   · cases s.cancelQ <;> rfl
+  · cases s.inner.hasTasks <;> rfl
+  · cases s.inner.popRunning with
+    | none => rfl
+    | some p => rfl
 
 theorem no_deadlock_of_inv (h : Inv progs s) (hnt : terminated s = false) :
     ∃ a, a.isThread = true ∧ (step Cfg.fixed s a).isSome = true := by
@@ -270,6 +311,66 @@ theorem no_mutex_across_wait (h : Inv progs s) :
     have := (h.m.mutexC j c hj).mpr hm
     simp [hpc, clientCS] at this
 
+/-! ### task functions are invoked without the hand-over mutex -/
+
+theorem log_change_sched {cfg : Cfg} (hs : stepSched cfg s = some s') (hl : s'.log ≠ s.log) :
+    s.st.pc = .cancels ∨ s.st.pc = .running := by
+  unfold stepSched at hs
+  cases hpc : s.st.pc <;> simp only [hpc] at hs
+  case cancels => exact Or.inl rfl
+  case running => exact Or.inr rfl
+  all_goals
+    first
+      | (injection hs with hs; subst hs; exact absurd rfl hl)
+      | (split at hs <;> first | (injection hs with hs; subst hs; exact absurd rfl hl) | cases hs)
+      | (injection hs with hs; subst hs; simp at hl)
+      | cases hs
+
+theorem log_change_client {cfg : Cfg} {i : Nat} {c : Client} (hci : s.clients[i]? = some c)
+    (hs : stepClient cfg s i = some s') (hl : s'.log ≠ s.log) : c.pc = .dDrainC ∨ c.pc = .dSweep := by
+  unfold stepClient at hs
+  simp only [hci] at hs
+  cases hpc : c.pc <;> simp only [hpc] at hs
+  case dDrainC => exact Or.inl rfl
+  case dSweep => exact Or.inr rfl
+  case idle =>
+    cases hprog : c.prog with
+    | nil => simp [hprog] at hs
+    | cons op rest =>
+      simp only [hprog] at hs
+      cases op <;> simp only at hs <;>
+        first
+          | (injection hs with hs; subst hs; exact absurd rfl hl)
+          | (split at hs <;> first | (injection hs with hs; subst hs; exact absurd rfl hl) | cases hs)
+  all_goals
+    first
+      | (injection hs with hs; subst hs; exact absurd rfl hl)
+      | (split at hs <;> first | (injection hs with hs; subst hs; exact absurd rfl hl) | cases hs)
+      | (injection hs with hs; subst hs; simp at hl)
+
+/-- whenever a step invokes a task function (the log grows) the invoking thread does not hold the
+hand-over mutex -/
+theorem callbacks_unlocked_of_inv (h : Inv progs s) (a : Act) (hs : step Cfg.fixed s a = some s')
+    (hl : s'.log ≠ s.log) : ∃ k, a.thread = some k ∧ s.mutex ≠ some k := by
+  cases a with
+  | tick d => simp only [step] at hs; injection hs with hs; subst hs; exact absurd rfl hl
+  | spurious =>
+    simp only [step, stepSpurious] at hs
+    split at hs
+    · injection hs with hs; subst hs; exact absurd rfl hl
+    · cases hs
+  | sched =>
+    refine ⟨0, rfl, fun hm => ?_⟩
+    have hcs := h.m.mutexS.mp hm
+    rcases log_change_sched hs hl with hp | hp <;> simp [hp, schedCS] at hcs
+  | client i =>
+    refine ⟨i + 1, rfl, fun hm => ?_⟩
+    simp only [step] at hs
+    cases hci : s.clients[i]? with
+    | none => unfold stepClient at hs; simp [hci] at hs
+    | some c =>
+      have hcs := (h.m.mutexC i c hci).mpr hm
+      rcases log_change_client hci hs hl with hp | hp <;> simp [hp, clientCS] at hcs
 
 theorem run_append (cfg : Cfg) (s : Sys) (a b : List Act) : run cfg s (a ++ b) = run cfg (run cfg s a) b := by
   simp [run, List.foldl_append]
@@ -288,5 +389,87 @@ theorem log_frozen (h : Inv progs s) (hr : s.released = true) (acts : List Act) 
     | sched => rw [quiet_of_released h hr .sched rfl]; exact ih h hr
     | spurious => rw [quiet_of_released h hr .spurious rfl]; exact ih h hr
     | client j => rw [quiet_of_released h hr (.client j) rfl]; exact ih h hr
+
+theorem get_canceled_none {cbs : Cbs} (hn : NoCanceledReentry cbs) (t : Task) : cbs.get t .canceled = .none := by
+  induction cbs with
+  | nil => rfl
+  | cons e r ih =>
+    simp only [Cbs.get]
+    by_cases h : e.task = t ∧ e.status = .canceled
+    · simp only [h, and_self, if_true]; exact hn e (by simp) h.2
+    · simp only [h, if_false]; exact ih (fun e' he' => hn e' (List.mem_cons_of_mem _ he'))
+
+theorem stepSched_static {cfg : Cfg} (hs : stepSched cfg s = some s') : s'.cbs = s.cbs ∧ s'.misuse = s.misuse := by
+  unfold stepSched at hs
+  cases hpc : s.st.pc <;> simp only [hpc] at hs
+  all_goals try (split at hs)
+  all_goals first
+    | (cases hs; done)
+    | (injection hs with hs; subst hs; first | exact ⟨rfl, rfl⟩ | simp)
+
+theorem stepClient_static {cfg : Cfg} {i : Nat} (hn : NoCanceledReentry s.cbs) (hs : stepClient cfg s i = some s') :
+    s'.cbs = s.cbs ∧ (s.misuse = false → s'.misuse = false) := by
+  unfold stepClient at hs
+  cases hci : s.clients[i]? with
+  | none => simp [hci] at hs
+  | some c =>
+    simp only [hci] at hs
+    cases hpc : c.pc <;> simp only [hpc] at hs
+    case idle =>
+      cases hprog : c.prog with
+      | nil => simp [hprog] at hs
+      | cons op rest =>
+        simp only [hprog] at hs
+        cases op <;> simp only at hs
+        all_goals try (split at hs)
+        all_goals first
+          | (cases hs; done)
+          | (injection hs with hs; subst hs; exact ⟨rfl, id⟩)
+    case dDrainC =>
+      split at hs
+      · injection hs with hs; subst hs; exact ⟨rfl, id⟩
+      · injection hs with hs; subst hs
+        refine ⟨by simp, fun hm => ?_⟩
+        simp only [procRec_misuse, hm, Bool.false_or, decide_eq_false_iff_not, Decidable.not_not]
+        split
+        · exact get_canceled_none hn _
+        · rfl
+    case dSweep =>
+      split at hs
+      · injection hs with hs; subst hs; exact ⟨rfl, id⟩
+      · injection hs with hs; subst hs
+        refine ⟨rfl, fun hm => ?_⟩
+        simp only [hm, Bool.false_or, decide_eq_false_iff_not, Decidable.not_not]
+        exact get_canceled_none hn _
+    all_goals try (split at hs)
+    all_goals first
+      | (cases hs; done)
+      | (injection hs with hs; subst hs; first | exact ⟨rfl, id⟩ | simp)
+
+/-- if no task function re-enters when invoked with CANCELED, no run has a re-entry after the last release -/
+theorem static_no_misuse {cbs : Cbs} (hn : NoCanceledReentry cbs) (acts : List Act) :
+    (run Cfg.fixed (init progs cbs) acts).misuse = false := by
+  suffices h : ∀ s : Sys, s.cbs = cbs → s.misuse = false →
+      (run Cfg.fixed s acts).misuse = false from h _ rfl rfl
+  induction acts with
+  | nil => intro s _ hm; exact hm
+  | cons a as ih =>
+    intro s hc hm
+    simp only [run, List.foldl_cons]
+    cases hs : step Cfg.fixed s a with
+    | none => simp only [Option.getD_none]; exact ih s hc hm
+    | some s' =>
+      simp only [Option.getD_some]
+      cases a with
+      | tick d => simp only [step] at hs; injection hs with hs; subst hs; exact ih _ hc hm
+      | sched => have := stepSched_static hs; exact ih s' (this.1.trans hc) (this.2.trans hm)
+      | spurious =>
+        simp only [step, stepSpurious] at hs
+        split at hs
+        · injection hs with hs; subst hs; exact ih _ hc hm
+        · cases hs
+      | client i =>
+        have := stepClient_static (hc ▸ hn) hs
+        exact ih s' (this.1.trans hc) (this.2 hm)
 
 end AwsVerif.Proofs.C08
